@@ -26,6 +26,7 @@ type hbScript struct {
 	sendAt  int   // an application Send at this instant (0 = none)
 	msgAt   []int // the client submits an ordinary message at these instants (no heartbeat meaning)
 	upgradeFirst bool // the (polling) session is upgraded to websocket by a conformant client at t=0, before the grid starts
+	idleCandAt   int  // >0: an upgrade candidate connects at this instant and then stays idle (no probe, no upgrade)
 	upgradeAt    int  // >0: a conformant client upgrades the (polling, revision 4) session at this instant, mid-interval, no ping outstanding
 }
 
@@ -39,6 +40,9 @@ func (h hbScript) id() string {
 	}
 	if h.upgradeAt > 0 {
 		m += fmt.Sprintf(" upgraded@%d", h.upgradeAt)
+	}
+	if h.idleCandAt > 0 {
+		m += fmt.Sprintf(" idle-candidate@%d", h.idleCandAt)
 	}
 	if h.v3 {
 		return fmt.Sprintf("%s v3 I=%d T=%d pings@%v%s", h.kind, h.I, h.T, h.v3pings, m)
@@ -269,6 +273,15 @@ func hbBody(h hbScript) vsched.Body {
 				}
 			})
 		}
+		if h.idleCandAt > 0 && s.pc != nil {
+			at := time.Duration(h.idleCandAt) * hbUnit
+			sid := s.pc.Sid
+			vsched.GoNamed("idle-candidate", func() {
+				vsched.SleepUntil(at)
+				c := dialCandidate(w, "websocket", sid)
+				c.waitOpen()
+			})
+		}
 		if h.upgradeAt > 0 && s.pc != nil {
 			at := time.Duration(h.upgradeAt) * hbUnit
 			pc := s.pc
@@ -447,6 +460,9 @@ func init() {
 					// upgraded in the middle of an interval, no ping outstanding: the ping schedule is unchanged
 					out = append(out, hbScript{I: I, T: T, kind: kind, delays: []int{0, -1}, upgradeAt: 1})
 					out = append(out, hbScript{I: I, T: T, kind: kind, delays: []int{-1}, upgradeAt: 1})
+					// an upgrade candidate that connects and then does nothing does not stop the heartbeat
+					out = append(out, hbScript{I: I, T: T, kind: kind, delays: []int{-1}, idleCandAt: 1})
+					out = append(out, hbScript{I: I, T: T, kind: kind, delays: []int{0, -1}, idleCandAt: 1})
 				}
 				// ordinary client traffic does not count as a heartbeat
 				out = append(out, hbScript{I: I, T: T, kind: kind, v3: true, v3pings: []int{1}, msgAt: []int{2}})
